@@ -479,6 +479,12 @@ def ident(t):
     return t
 
 
+def opaque(fn):
+    """specification helper that the verifier does not unfold at its uses (uninterpreted function + defining equation);
+    at run time it is the plain Python function"""
+    return fn
+
+
 def ghost(qual, before, name, expr):
     """ghost assignment `name = expr` (expr: Python source over the locals) executed immediately before the first statement whose
     source text contains `before`; it only gives later hints / invariants a name for an intermediate value"""
